@@ -17,7 +17,7 @@ Theorem panic_contained : forall (q : reqinfo) (stack : bytes) (next : handler) 
       if carries_abort v
       then recovery_mw q stack next w log = (Panicked v, w', log)
       else exists w'',
-          recovery_mw q stack next w log = (Returned, w'', log ++ [record q v stack]) /\
+          recovery_mw q stack next w log = (Returned, w'', logged q v stack log) /\
           (written w' = true -> w'' = w') /\
           (written w' = false -> reports_broken_connection v = true -> w'' = w') /\
           (written w' = false -> reports_broken_connection v = false -> w'' = handle500 w')
@@ -49,7 +49,7 @@ Print Assumptions broken_connection_class.
 Theorem model_meets_spec_response : forall q stack acts v vid,
   let o := observe q stack acts v vid in
   contained_ok v vid o = true /\ response_ok v o = true /\
-  (carries_abort v = false -> o_records o = [record q v stack]).
+  (carries_abort v = false -> o_records o = logged q v stack []).
 Proof. exact model_meets_spec_response_proof. Qed.
 Print Assumptions model_meets_spec_response.
 
@@ -169,4 +169,11 @@ Example flush_starts_response :
   r = Returned /\ u_wrote w = true /\ u_status w = 200 /\ u_body w = [] /\
   let '(_, w2, _) := recovery_mw ex_q [] (run_actions [AFlush FNone] (Some (PStr (S2B "x")))) w_reset [] in
   u_status w2 = 500.
+Proof. vm_compute. repeat split. Qed.
+
+(* a log handler that is not enabled at Error (discard, higher level) changes nothing but the log *)
+Example disabled_log_handler_still_500 :
+  let q := Q RouteHandler (S2B "/r") true [] (q_dump ex_q) false in
+  let '(r, w, log) := recovery_mw q [] (run_actions [] (Some (PStr (S2B "x")))) w_reset [] in
+  r = Returned /\ u_wrote w = true /\ u_status w = 500 /\ log = [].
 Proof. vm_compute. repeat split. Qed.
